@@ -92,6 +92,16 @@ const NUMS: [&str; 22] = [
     "1e-400", "", "abc", "4294967296", "0x10", "1.5", "-0", "65536", "3",
 ];
 
+/// Text that is not a number: a run of digits of any length followed by characters of 2, 3 or 4 UTF-8 bytes,
+/// so that every byte offset up to ~70 falls inside a multi-byte character in some case.
+fn odd_text(s: &mut Src) -> String {
+    let mut t = "7".repeat(s.below(72) as usize);
+    for _ in 0..1 + s.below(30) {
+        t.push(*s.pick(&['\u{a0}', '\u{e9}', '\u{20ac}', '\u{1F600}', 'x', '\u{2028}']));
+    }
+    t
+}
+
 fn u64_pool(s: &mut Src, file_len: u64) -> u64 {
     match s.weighted(&[12, 4]) {
         0 => *s.pick(&[
@@ -150,11 +160,15 @@ pub fn gen_script(s: &mut Src) -> Script {
                 3 => Mut::BlobInflate { nth: s.below(4) as u8, length: *s.pick(&[9999u64, 1 << 20, 1 << 40, u64::MAX - 16, u64::MAX]) },
                 _ => Mut::PacketChain { cloud: s.below(3) as u8, nth: s.below(4) as u8, step: s.below(3) as u8 },
             },
-            1 => Mut::XmlNumber { nth: s.below(200) as u16, with: s.pick(&NUMS).to_string() },
+            1 => Mut::XmlNumber { nth: s.below(200) as u16, with: if s.chance(1, 8) { odd_text(s) } else { s.pick(&NUMS).to_string() } },
             2 => Mut::XmlAttr {
                 name: s.pick(&["recordCount", "fileOffset", "length", "minimum", "maximum", "scale", "offset", "precision", "type"]).to_string(),
                 nth: s.below(40) as u16,
-                value: if s.chance(1, 4) { u64_pool(s, len_hint).to_string() } else { s.pick(&NUMS).to_string() },
+                value: match s.weighted(&[2, 5, 1]) {
+                    0 => u64_pool(s, len_hint).to_string(),
+                    1 => s.pick(&NUMS).to_string(),
+                    _ => odd_text(s),
+                },
             },
             3 => Mut::XmlType { nth: s.below(60) as u16, with: s.pick(&["Integer", "Float", "ScaledInteger", "String", "Structure", "Vector", "CompressedVector", "Blob", ""]).to_string() },
             4 => Mut::XmlDelete { nth: s.below(80) as u16 },
